@@ -487,6 +487,11 @@ func (e *Engine) specIdent(env *SpecEnv, name string) Value {
 			return PkgV{imp}
 		}
 	}
+	if al, ok := e.importAlias[env.pkg.Path()]; ok {
+		if p, ok := al[name]; ok {
+			return PkgV{p}
+		}
+	}
 	if p, ok := e.extraPkgs[name]; ok {
 		return PkgV{p}
 	}
